@@ -243,9 +243,36 @@ def serialisation_part(ck):
         a: int
         b: str
 
+    class Sub(BaseModel):
+        unit: str = "mm"
+        baz: bool = False
+
+    class D(BaseModel):          # fields with defaults, an optional field, a nested model with defaults
+        series: int
+        htype: str = "dheader-1.0"
+        detail: str = "basic"
+        note: str = None
+        sub: Sub = Sub()
+        tags: list = []
+
+    def full(v):
+        """every declared field with its current value, whether or not the sender passed it explicitly"""
+        if isinstance(v, BaseModel):
+            return {k: full(getattr(v, k)) for k in v.__fields__}
+        if isinstance(v, dict):
+            return {k: full(x) for k, x in v.items()}
+        if isinstance(v, (list, tuple)):
+            return [full(x) for x in v]
+        return v
+
+    d_assigned = D(series=4)
+    d_assigned.detail = "all"
     io = ZeroMqPushIo()
     samples = [(b"\x00raw", "bytes"), (b"", "bytes"), ("text é", "str"), ("", "str"), ({"k": [1, 2, {"n": None}]}, "map"),
-               ({}, "map"), (M(a=1, b="x"), "model"), (3, "other"), (3.5, "other"), (None, "other"), ([1], "other"),
+               ({}, "map"), (M(a=1, b="x"), "model"), (D(series=2), "model"), (D(series=2, sub=Sub(baz=True)), "model"),
+               (D(series=3, htype="x", detail="y", note="n", sub=Sub(unit="m", baz=True), tags=[1]), "model"),
+               (d_assigned, "model"), (Sub(), "model"),
+               (3, "other"), (3.5, "other"), (None, "other"), ([1], "other"),
                (bytearray(b"x"), "other")]
     ok = True
     for v, kind in samples:
@@ -259,7 +286,7 @@ def serialisation_part(ck):
         elif kind in ("str", "map"):
             exp = js.dumps(v).encode("utf_8")
         elif kind == "model":
-            exp = js.dumps(v.dict()).encode("utf_8")
+            exp = js.dumps(full(v)).encode("utf_8")
         else:
             exp = TypeError
         if got != exp:
